@@ -261,6 +261,13 @@ func analyseFd(c *core.Ctx, v *vocab, f *fn, g *flow.Graph, src fdSource) []fdIs
 		} else if x, y, op, ok := flow.Cmp(e.Cond); ok && flow.IsNil(info, y) {
 			errObj = flow.ObjOf(info, x)
 			failed = (op == token.NEQ && e.Sense) || (op == token.EQL && !e.Sense)
+		} else if ok && op == token.EQL && e.Sense {
+			// err == unix.EAGAIN …: a specific non-nil error
+			if o := flow.ObjOf(info, x); o != nil && pairIdx(o) >= 0 {
+				if k := flow.ObjOf(info, y); k != nil && k.Pkg() != nil && k.Pkg().Path() == unixPkg {
+					errObj, failed = o, true
+				}
+			}
 		}
 		if errObj != nil && failed {
 			if i := pairIdx(errObj); i >= 0 && valid&(1<<uint(i)) != 0 {
